@@ -56,6 +56,11 @@ class C18(Check):
             'held as int8, uint8, int16, uint16, int32, uint32, int64, uint64 arrays, numpy scalars and Python ints, RAs '
             'only or all four arguments typed, compared with the long-double reference and with the float64 call for the '
             'same values and across the conventions; '
+            'equivalent RA spellings (class gcx_raspelling): negative RA, RA-360, RA+360, RA+-720, [-180,180) longitudes, '
+            'pairs straddling RA=0 written -x/+y, positions within 1e-12..1e-2 deg of (0,0), separations 1 micro-arcsecond '
+            'upwards, with the coordinate-scaled floor 200*eps*(|ra1|+|ra2|+|dec1|+|dec2|) instead of the global one; '
+            'batches of exactly 1, 2, 3, 4, 5 generic points through angles_to_x / x_to_angles (class angvec_smallbatch: '
+            '(2,2) angle arrays and (3,3) vector arrays are shapes whose two axes can be confused); '
             'broadcasting: each of the four arguments independently Python float / numpy scalar / 0-d array / length-1 / '
             'length-n array in all 16 scalar-array patterns plus column-against-row, result shape = broadcast shape '
             '(scalars in -> scalar out), every value = reference and = the scalar call of that pair.  '
@@ -97,6 +102,10 @@ class C18(Check):
         'integer-typed gcirc input (int8..uint64 arrays and numpy scalars, Python ints; RAs only or all four typed) is '
         'asserted in all three conventions against the long-double reference and the float64 call (finding F-G8, fixed: '
         'before, numpy.deg2rad of 8/16-bit integers computed in float16/float32 and unsigned RA differences wrapped at units=0)',
+        'gcx_raspelling tolerance |g-ref| <= 1e-6*ref + 200*eps*(|ra1|+|ra2|+|dec1|+|dec2|) (radians): the only absolute '
+        'error of a formula that converts each coordinate separately is the rounding of that conversion, eps*|coordinate| '
+        '(two roundings for hours); for in-range coordinates this is the global 3e-13 floor, for small coordinates it is far '
+        'tighter and for RA beyond one turn proportionally wider',
         'unit vectors: float64 vectors whose norm is within 2 ulp of 1 (correctly rounded from long double, or '
         'numpy v/numpy.linalg.norm(v)); angle arrays: float64, int64, int32',
     ]
@@ -122,7 +131,11 @@ class C18(Check):
                                'gci_units0_asserted_calls', 'gci_units1_asserted_calls', 'gci_units2_asserted_calls',
                                'gcb_calls', 'gcb_pairs', 'gcb_all_scalar_calls', 'gcb_scalar_ra_array_dec_calls',
                                'gcb_array_ra_scalar_dec_calls', 'gcb_outer_calls', 'gcb_python_float_args',
-                               'gcb_numpy_scalar_args', 'gcb_0d_array_args', 'gcb_length1_array_args', 'gcb_scalar_call_comparisons']
+                               'gcb_numpy_scalar_args', 'gcb_0d_array_args', 'gcb_length1_array_args', 'gcb_scalar_call_comparisons',
+                               'gcs_pairs', 'gcs_negative_ra_pairs', 'gcs_negative_ra_sep_below_1e-9rad', 'gcs_straddling_ra0_pairs',
+                               'gcs_ra_beyond_one_turn_pairs', 'gcs_all_coordinates_below_1e-4rad_pairs', 'gcs_sep_below_1e-10rad',
+                               'small_batches_n1', 'small_batches_n2', 'small_batches_n3', 'small_batches_n4', 'small_batches_n5',
+                               'small_x_to_angles_3x3_calls', 'small_angles_to_x_2x2_calls']
                               + ['gc_sep_decade_1e%+d' % d for d in DECADES])
     REQUIRED_REACH = {'astro.gcirc': 0.85, 'coord.stripe_to_eta': 1.0, 'coord.stripe_to_incl': 1.0,
                       'coord.radec_to_munu': 1.0, 'coord.munu_to_radec': 1.0,
@@ -179,6 +192,8 @@ class C18(Check):
             'munu_flavours': 91 if q else 91 * 8,
             'gcx_intdtype': 48 if q else 960,
             'gcx_broadcast': 64 if q else 1600,
+            'gcx_raspelling': 80 if q else 1600,
+            'angvec_smallbatch': 40 if q else 800,
         }
 
     # ------------------------------------------------------------------ generators
@@ -194,6 +209,10 @@ class C18(Check):
         g = np_rng(rng)
         if cls == 'gcx_intdtype':
             return self._gen_gci(g, i)
+        if cls == 'gcx_raspelling':
+            return self._gen_gcs(g, i)
+        if cls == 'angvec_smallbatch':
+            return self._gen_small(g, i)
         if cls == 'gcx_broadcast':
             return self._gen_gcb(g, i)
         if cls.startswith('gc_'):
@@ -378,6 +397,46 @@ class C18(Check):
                 'r1': g.integers(0, 7, n).tolist(), 'e1': g.integers(-1, 2, n).tolist(),
                 'r2': g.integers(0, 7, n).tolist(), 'e2': g.integers(-1, 2, n).tolist()}
 
+    def _gen_gcs(self, g, i):
+        n = 500
+        k = g.random(n)
+        sgn = lambda: g.choice([-1.0, 1.0], n)                     # noqa: E731
+        ra1, dec1 = self._sphere(g, n)
+        near0 = k < 0.5                                             # all coordinates small: the code is nearly exact here
+        ra1 = np.where(near0, sgn() * 10.0 ** g.uniform(-12, -2, n), ra1)
+        dec1 = np.where(near0, sgn() * 10.0 ** g.uniform(-12, -2, n), dec1)
+        smallra = (k >= 0.5) & (k < 0.75)                           # RA small (either sign), Dec anywhere
+        ra1 = np.where(smallra, sgn() * 10.0 ** g.uniform(-12, 0, n), ra1)
+        sep = np.where(g.random(n) < 0.8, self._logsep(g, n, MUAS, 1e-4), self._logsep(g, n))
+        pa = g.uniform(0, 2 * PI, n)
+        pa = np.where(g.random(n) < 0.5, g.choice([0.5 * PI, 1.5 * PI], n) + g.normal(0, 0.3, n), pa)
+        b = S.offset_vec(ra1, dec1, sep, pa)
+        lon = np.arctan2(b[:, 1], b[:, 0])                          # signed longitude: partners of points near RA 0 keep their precision
+        lat = np.arctan2(b[:, 2], np.sqrt(b[:, 0] ** 2 + b[:, 1] ** 2))
+        ra2 = (lon / S.D2R).astype(np.float64)
+        dec2 = np.clip((lat / S.D2R).astype(np.float64), -90.0, 90.0)
+        ra2 = np.where(~near0 & ~smallra & (ra2 < 0) & (g.random(n) < 0.5), ra2 + 360.0, ra2)
+        # other spellings of the same right ascension (the rounded sum is what is passed, and what the reference sees)
+        for ra in (ra1, ra2):
+            m = g.random(n)
+            far = ~near0 & ~smallra
+            ra += np.where(far & (m < 0.2), -360.0, 0.0) + np.where(far & (m >= 0.2) & (m < 0.35), 360.0, 0.0) \
+                + np.where(far & (m >= 0.35) & (m < 0.42), 720.0, 0.0) + np.where(far & (m >= 0.42) & (m < 0.5), -720.0, 0.0)
+            w = (near0 | smallra) & (m < 0.08)
+            ra += np.where(w, g.choice([-360.0, 360.0], n), 0.0)
+        return {'kind': 'gcs', 'ra1': lst(ra1), 'dec1': lst(dec1), 'ra2': lst(ra2), 'dec2': lst(dec2), 'sep': lst(sep)}
+
+    def _gen_small(self, g, i):
+        sets = []
+        for n in (1, 2, 3, 4, 5):
+            phi = g.uniform(-180.0, 360.0, n)
+            th = np.degrees(np.arccos(g.uniform(-0.999, 0.999, n)))
+            v = g.normal(size=(n, 3)).astype(LD)
+            v /= np.sqrt((v * v).sum(1))[:, None]
+            x = v.astype(np.float64)
+            sets.append({'n': n, 'phi': lst(phi), 'theta': lst(th), 'x': [lst(x[:, 0]), lst(x[:, 1]), lst(x[:, 2])]})
+        return {'kind': 'small', 'sets': sets}
+
     def _gen_gcb(self, g, i):
         n = int(g.integers(2, 9))
         ra1, dec1 = self._sphere(g, n)
@@ -498,6 +557,10 @@ class C18(Check):
 
     def run(self, case, out):
         kind = case['kind']
+        if kind == 'gcs':
+            return self._run_gcs(case, out)
+        if kind == 'small':
+            return self._run_small(case, out)
         if kind == 'gci':
             return self._run_gci(case, out)
         if kind == 'gcb':
@@ -751,6 +814,77 @@ class C18(Check):
                 out.count('gci_unit_convention_checks', int(idx.size))
         out.nontrivial = True
         out.info.update(not_asserted_max_deviation_rad=worst)
+
+    # ------------------------------------------------------------------ gcirc: equivalent spellings of a right ascension
+    def _run_gcs(self, case, out):
+        gcirc = self.A.gcirc
+        ra1, dec1, ra2, dec2 = f64(case['ra1']), f64(case['dec1']), f64(case['ra2']), f64(case['dec2'])
+        n = ra1.size
+        inputs = {2: (ra1, dec1, ra2, dec2), 1: (ra1 / 15.0, dec1, ra2 / 15.0, dec2),
+                  0: (np.radians(ra1), np.radians(dec1), np.radians(ra2), np.radians(dec2))}
+        lonu = {2: 'deg', 1: 'hour', 0: 'rad'}
+        latu = {2: 'deg', 1: 'deg', 0: 'rad'}
+        eps = float(np.finfo(np.float64).eps)
+        got, refs, tols = {}, {}, {}
+        for un in (2, 1, 0):
+            a1, d1, a2, d2 = inputs[un]
+            L1, B1, L2, B2 = S.to_rad(a1, lonu[un]), S.to_rad(d1, latu[un]), S.to_rad(a2, lonu[un]), S.to_rad(d2, latu[un])
+            ref = S.sep(L1, B1, L2, B2)
+            floor = 200 * eps * (np.abs(L1) + np.abs(B1) + np.abs(L2) + np.abs(B2)).astype(np.float64)
+            tol = REL * ref + floor
+            toradl = (lambda x: np.asarray(x, dtype=np.float64).astype(LD)) if un == 0 else \
+                     (lambda x: np.asarray(x, dtype=np.float64).astype(LD) / 3600 * S.D2R)
+            tag = 'units=%d' % un
+            wit = dict(ra1=a1, dec1=d1, ra2=a2, dec2=d2)
+            r = np.asarray(gcirc(a1, d1, a2, d2, units=un), dtype=np.float64).reshape(-1)
+            if not out.expect(r.shape == (n,), 'shape', '%s: result shape %r' % (tag, r.shape)):
+                return
+            g = toradl(r)
+            got[un], refs[un], tols[un] = g, ref, tol
+            fin = np.isfinite(r)
+            top = PI * (1 + 1e-15) if un == 0 else 648000.0 * (1 + 1e-15)
+            self._all(out, fin, 'never-nan', '%s: distance is not finite' % tag, got=r, **wit)
+            self._all(out, ~fin | ((r >= 0) & (r <= top)), 'range', '%s: distance outside [0, 180 deg]' % tag, got=r, **wit)
+            e = np.abs(g - ref)
+            self._all(out, ~fin | (e <= tol), 'ra-spelling',
+                      '%s: |gcirc - reference| > 1e-6*ref + 200 eps (|ra1|+|ra2|+|dec1|+|dec2|) for right ascensions written outside [0, one turn)' % tag,
+                      ratio=e / np.maximum(tol.astype(np.float64), 1e-300), got_rad=g.astype(np.float64), ref_rad=ref.astype(np.float64),
+                      err_rad=e.astype(np.float64), tol_rad=tol.astype(np.float64), **wit)
+            rs = np.asarray(gcirc(a2, d2, a1, d1, units=un), dtype=np.float64).reshape(-1)
+            self._all(out, ~fin | (np.abs(toradl(rs) - g) <= 1e-12 * ref + floor), 'symmetry', '%s: gcirc(p1,p2) != gcirc(p2,p1)' % tag, fwd=r, rev=rs, **wit)
+        for un in (1, 0):
+            ok = np.abs(got[un] - got[2]) <= tols[un] + tols[2] + 1e-6 * refs[2] + np.abs(refs[un] - refs[2])
+            self._all(out, ok | ~np.isfinite((got[un] + got[2]).astype(np.float64)), 'unit-conventions',
+                      'units=%d and units=2 disagree on the same points' % un, this_rad=got[un].astype(np.float64), deg_rad=got[2].astype(np.float64),
+                      ra1=ra1, dec1=dec1, ra2=ra2, dec2=dec2)
+        ref = refs[2].astype(np.float64)
+        neg = (ra1 < 0) | (ra2 < 0)
+        out.count('gcs_pairs', n)
+        out.count('gcs_negative_ra_pairs', int(neg.sum()))
+        out.count('gcs_negative_ra_sep_below_1e-9rad', int((neg & (ref < 1e-9)).sum()))
+        out.count('gcs_straddling_ra0_pairs', int(((ra1 < 0) != (ra2 < 0)).sum()))
+        out.count('gcs_ra_beyond_one_turn_pairs', int(((np.abs(ra1) >= 360) | (np.abs(ra2) >= 360)).sum()))
+        small = np.maximum.reduce([np.abs(ra1), np.abs(ra2), np.abs(dec1), np.abs(dec2)]) < np.degrees(1e-4)
+        out.count('gcs_all_coordinates_below_1e-4rad_pairs', int(small.sum()))
+        out.count('gcs_sep_below_1e-10rad', int((ref < 1e-10).sum()))
+        out.nontrivial = bool(neg.any())
+        out.info.update(pairs=n, negative=int(neg.sum()))
+
+    # ------------------------------------------------------------------ angles / vectors: batches of exactly 1..5 points
+    def _run_small(self, case, out):
+        for st in case['sets']:
+            n = int(st['n'])
+            for lat in (False, True):
+                second = (90.0 - f64(st['theta'])) if lat else f64(st['theta'])
+                self._run_ang({'kind': 'ang', 'latitude': lat, 'dtype': 'float64', 'phi': st['phi'], 'second': lst(second)}, out)
+                self._run_vec({'kind': 'vec', 'latitude': lat, 'dtype': 'float64', 'x': st['x']}, out)
+                out.count('small_batches_n%d' % n, 2)
+                if n == 3:
+                    out.count('small_x_to_angles_3x3_calls', 2)
+                if n == 2:
+                    out.count('small_angles_to_x_2x2_calls', 2)
+        out.nontrivial = True
+        out.info = {'sizes': [int(st['n']) for st in case['sets']]}
 
     # ------------------------------------------------------------------ gcirc: broadcasting
     @staticmethod
